@@ -82,7 +82,7 @@ def run_one(drv, alg, fam, seed, nops, maxlen, reject_pct, poison=0, keep=False,
             k = "F ret" if not rl.startswith("r=-") else "F null"
             hist[k] = hist.get(k, 0) + 1
     out.update({"monitors": monitors, "diffs": diffs, "ops": len(impl_lines), "hist": hist, "rejected": nrej, "impl_lines": impl_lines,
-                "sample": [oplines[i] + " -> " + impl_lines[i][:120] for i in range(1, min(4, len(impl_lines)))]})
+                "sample": [oplines[i] + " -> " + impl_lines[i][:120] for i in range(1, min(4, len(impl_lines), len(oplines)))]})
     if not keep:
         for p in (ops, res):
             try:
